@@ -24,6 +24,7 @@ Definition f7_witness : list op :=
                   [mkInp 1 (if Nat.even k then 20 else 45)%float 0 0 0%float 0%float])
       (seq 0 19).
 
-Theorem C16_growth_bound_refuted :
-  wf f7_witness = true /\ mon_verdict (run f7_witness) = cl_growth_floor.
+(** regression: on the repaired controller the F7 history satisfies every clause *)
+Example C16_f7_witness_now_ok :
+  wf f7_witness = true /\ ok_C16 (run f7_witness) = true.
 Proof. vm_compute. split; reflexivity. Qed.
